@@ -73,4 +73,25 @@ CHECKS["C12"] = {
     "note": "faults are not injected into the solver set-up calls on the previous (already validated) state; transitions' handling of IntegratorError / NaN energies is covered by the "
             "transition contracts when built (see evidence notes); multi-iteration chain continuation rests on C13's loop invariant.",
 }
+CHECKS["C09"] = {
+    "engine": "pyvc + frames",
+    "technique": "contract-based verification: representation invariant of the cache protocol proved preserved by every operation of the real states.py over an exhaustively enumerated abstract configuration space; static read-set / alias frame obligations on systems.py",
+    "design_ref": "DESIGN.md section 7 C09",
+    "text": "Inv (every non-None entry of every family member is the from-scratch value and registered under its declared dependencies) is proved to be re-established by every "
+            "operation (cached call, call with auxiliary outputs, assignment, copy, read-only copy, pickle round trip, second system object) from every Inv-configuration of a 4-key / "
+            "2-member universe, interpreting the real decorators and ChainState; by induction every history is transparent. Statically, every decorated system method's transitive read "
+            "set is within its declared dependencies, auxiliary outputs are covered by the primary's dependencies, cached values do not alias state variables (known finding D7), and no "
+            "library function mutates a state array through an alias.",
+    "note": "small-model argument (keys only compared for equality); id() injective; user functions pure and returning fresh objects; static analysis tracks reads through "
+            "self.<m>(state)/super() calls only.",
+}
+CHECKS["C18"] = {
+    "engine": "pyvc + frames",
+    "technique": "contract-based verification with a ghost cost counter: cache-protocol cost postconditions over the enumerated configuration space of the real states.py; per-step cost contracts on the real integrators + System classes",
+    "design_ref": "DESIGN.md section 7 C18",
+    "text": "A valid entry costs zero user-function evaluations, a miss one, auxiliary outputs turn later requests into hits, copies carry the cache, assignments invalidate only "
+            "dependants (for every abstract configuration); one leapfrog / BCSS step from a state with a valid gradient entry costs exactly #stages gradients and returns a state with a "
+            "valid entry (so n steps cost n(+1)), the value returned alongside the gradient is reused, momentum refresh keeps position-dependent entries.",
+    "note": "tree transitions: bound n+2 from a fresh start state is stated, not proved here; metric stub; small-model argument as in C09.",
+}
 NOT_APPLICABLE = {}
